@@ -74,7 +74,7 @@ def rule_S1(ctx: Ctx) -> None:
                 goal_if = n
                 break
         pathv = None
-        v = rets[0].value
+        v = X.expand_locals(rets[0].value, f.node)
         for sub in ast.walk(v):
             if isinstance(sub, ast.Subscript) and isinstance(sub.slice, ast.Slice) and N.const_int(sub.slice.step) == -1:
                 pathv = X.U(sub.value)
@@ -144,7 +144,7 @@ def rule_S3(ctx: Ctx) -> None:
     tentative = None
     for s in gstores:
         v = s.value
-        defs = X.assignments_to(nl, v.id) if isinstance(v, ast.Name) else [v]
+        defs = X.assignments_to(f.node, v.id) if isinstance(v, ast.Name) else [v]
         for d in defs:
             a = N.affine(d)
             syms = [k for k in a if k != 1]
@@ -231,7 +231,7 @@ def rule_S3_quiet(S: dict) -> None:
     for s in ast.walk(nl):
         if isinstance(s, ast.Assign) and isinstance(s.targets[0], ast.Subscript) and X.U(s.targets[0].slice) == S["nb"]:
             v = s.value
-            defs = X.assignments_to(nl, v.id) if isinstance(v, ast.Name) else [v]
+            defs = X.assignments_to(S["f"].node, v.id) if isinstance(v, ast.Name) else [v]
             for d in defs:
                 a = N.affine(d)
                 syms = [k for k in a if k != 1]
@@ -358,21 +358,54 @@ def rule_S8(ctx: Ctx) -> None:
     ok = len(srcs) == 1 and gmap in stores and stores[gmap] == tent
     ctx.judge(f, ok, {"stores_at_neighbor": stores}, "per accepted neighbour: predecessor[n] = current, g[n] = tentative cost (and f[n])",
               "the predecessor chain or the cost map does not describe the route that was just found")
-    adds = [n for n in ast.walk(nl) if isinstance(n, ast.If) and any(X.U(s) == f"{opn}.add({nb})" for s in n.body)]
-    ok = len(adds) == 1 and X.U(adds[0].test) == f"{nb} not in {opn}"
-    ctx.judge(f, ok, {"open_add_guard": X.U(adds[0].test) if adds else None}, "a neighbour not yet in the open set is added to it")
+    # the open-set insertion, read off the path conditions (independent of how the guards are nested)
+    from sa.cfg import path_conditions
+    g = build_cfg(f.node)
+    loop_node = g.node_for(nl)
+    first = [s_ for s_, lab in loop_node.succ if lab == "next"][0]
+    add_nodes = [n for n in g.nodes if n.ast is not None and n.kind == "stmt" and isinstance(n.ast, ast.Expr) and X.U(n.ast.value) == f"{opn}.add({nb})" and g.can_reach(loop_node, n)]
+    gst = [n for n in g.nodes if n.ast is not None and n.kind == "stmt" and isinstance(n.ast, ast.Assign) and isinstance(n.ast.targets[0], ast.Subscript)
+           and X.U(n.ast.targets[0].value) == gmap and X.U(n.ast.targets[0].slice) == nb and g.can_reach(loop_node, n)]
+    new_atom = N.boolean_nf(X.expr_of(f"{nb} not in {opn}")).key()
+    known_atom = N.boolean_nf(X.expr_of(f"{nb} in {opn}")).key()
+
+    def atoms_of(conds):
+        out = set()
+        for test, lab in conds:
+            nf = N.boolean_nf(test, neg=(lab is False))
+            for a in (N.nf_atoms(nf) if (isinstance(nf, N.Atom) or nf[0] == "and") else []):
+                out.add(a.key())
+        return out
+
+    ok = None
+    slot = {"open_add_statements": len(add_nodes)}
+    if len(add_nodes) == 1 and len(gst) == 1:
+        only_new = all(new_atom in atoms_of(c) for c in path_conditions(g, first, add_nodes[0]))
+        store_paths = path_conditions(g, first, gst[0], with_nodes=True)
+        unadded = [c for c, seen in store_paths if add_nodes[0].id not in seen and known_atom not in atoms_of(c)]
+        ok = only_new and not unadded and bool(store_paths)
+        slot.update({"added_only_when_not_in_open": only_new, "store_paths_for_new_neighbour_without_add": len(unadded)})
+    elif not add_nodes:
+        ok = False
+    ctx.judge(f, ok, slot, "a neighbour not yet in the open set is added to it (every path to the cost store of a neighbour not known to be open passes the insertion)")
     # g of the start
     g0 = [s for s in pre if isinstance(s, ast.Assign) and X.U(s.targets[0]) == f"{gmap}[{S['start']}]"]
     ctx.judge(f, len(g0) >= 1, {"g_start_stores": [X.U(s) for s in g0]},
               "the start has an initial cost entry (any constant offset shifts all costs uniformly and preserves their order)")
     # closed set (optional): if present, it is a skip on membership and the popped node is added
-    closed = [n for n in ast.walk(nl) if isinstance(n, ast.If) and " in " in X.U(n.test) and " not in " not in X.U(n.test)
-              and (any(isinstance(s, (ast.Continue, ast.Pass)) for s in n.body)) and nb in X.U(n.test) and opn not in X.U(n.test)]
-    if closed:
-        cname = X.U(closed[0].test).split(" in ")[-1]
-        add = [s for s in lp.body if isinstance(s, ast.Expr) and X.U(s.value) == f"{cname}.add({cur})"]
-        ctx.judge(f, len(add) == 1 and X.U(closed[0].test) == f"{nb} in {cname}", {"closed_set": cname, "popped_added": len(add)},
-                  "the closed set (optional) holds exactly the popped nodes and only skips re-expansion (sound with the consistent Manhattan heuristic)")
+    if len(gst) == 1:
+        cands = set()
+        for c in path_conditions(g, first, gst[0]):
+            for test, lab in c:
+                for a in ast.walk(test):
+                    if isinstance(a, ast.Compare) and len(a.ops) == 1 and isinstance(a.ops[0], (ast.In, ast.NotIn)) and X.U(a.left) == nb and X.U(a.comparators[0]) != opn:
+                        cands.add(X.U(a.comparators[0]))
+        for cname in sorted(cands):
+            not_closed = N.boolean_nf(X.expr_of(f"{nb} not in {cname}")).key()
+            every = all(not_closed in atoms_of(c) for c in path_conditions(g, first, gst[0]))
+            add = [s_ for s_ in lp.body if isinstance(s_, ast.Expr) and X.U(s_.value) == f"{cname}.add({cur})"]
+            ctx.judge(f, len(add) == 1 and every, {"closed_set": cname, "popped_added": len(add), "stores_only_for_unclosed_neighbours": every},
+                      "the closed set (optional) holds exactly the popped nodes and only skips re-expansion (sound with the consistent Manhattan heuristic)")
 
 
 RULES = [
